@@ -503,7 +503,8 @@ class Check:
             ops = corpus_ops(prop)
             ncorpus = len(ops)
             ops += gen_ops(prop, self.tier, self.seed)
-            results = exec_ops(prop, ops, race=self.race)
+            # a hang must become a report, not a wait: the quick tier's whole op stream runs in well under two minutes
+            results = exec_ops(prop, ops, race=self.race, timeout=420 if self.tier == "quick" else 2400)
             models = None
             if okd:
                 try:
